@@ -629,11 +629,14 @@ def states_of(controller):
     return out
 
 
-def run_stages(exp, controller, rec, outcomes=None):
-    """The stage loop of scripts/elaunch.py::Run, restated. Returns (and fills in place) the per-stage outcomes."""
+def run_stages(exp, controller, rec, outcomes=None, first=0, last=None):
+    """The stage loop of scripts/elaunch.py::Run, restated. Returns (and fills in place) the per-stage outcomes.
+    first/last: run only the stages first..last (a restart from stage <first>; a run that dies after stage <last>)"""
     if outcomes is None:
         outcomes = []
     for stage in exp._stages:
+        if stage.index < first or (last is not None and stage.index > last):
+            continue
         out = {'stage': stage.index, 'continueOnError': bool(stage.continueOnError)}
         rec.ev('stage-start', 'stage%d' % stage.index, None)
         try:
